@@ -459,7 +459,14 @@ func TestBatchTransparent(t *testing.T) {
 			t.Fatalf("batching never combined any calls in %d eligible cases (replay %s)", e, p)
 		}
 	}()
-	rapid.Check(t, func(t *rapid.T) {
+	rapid.Check(t, propBatchTransparent)
+}
+
+// FuzzBatchTransparent: the same property driven by the coverage-guided engine (thorough tier).
+func FuzzBatchTransparent(f *testing.F) { f.Fuzz(rapid.MakeFuzz(propBatchTransparent)) }
+
+func propBatchTransparent(t *rapid.T) {
+	{
 		b := gen(t)
 		nt, labels, sig, err := check(b)
 		var rows []string
@@ -475,7 +482,7 @@ func TestBatchTransparent(t *testing.T) {
 		if nt {
 			rec.Sample(strings.Join(labels, "+"), cs)
 		}
-	})
+	}
 }
 
 func TestReplay(t *testing.T) {
